@@ -12,6 +12,7 @@ import Mathlib.Tactic.Ring
 import Mathlib.Tactic.SplitIfs
 import Mathlib.Tactic.Tauto
 import PhotVerif.Gen.ForwardTable
+import PhotVerif.Gen.StatsUnits
 
 namespace PhotVerif.C15
 open PhotVerif PhotVerif.Model.Units
@@ -188,5 +189,24 @@ example : totalError2 8 3 2 = .ok 13 := by decide +kernel
 theorem no_dropped_arguments : Gen.ForwardTable.droppedIn Gen.ForwardTable.scopeC15 =
     -- the one intended exception: the 'center' masks are built with method='center', which ignores `subpixels`
     [("aperture/stats.py", "ApertureStats._aperture_masks_center", "to_mask", "subpixels")] := by decide
+
+/-! ### units of the ApertureStats statistics (table regenerated from the source) -/
+
+/-- TABLE OBLIGATION: the variance-like statistics (`var`, `biweight_midvariance`) ask `_calculate_stats` for the squared data unit, every
+    other statistic for the data unit itself, and `_calculate_stats` attaches what it is asked for (seed C15-r8 ignored the argument) -/
+theorem stats_units_table :
+    (Gen.StatsUnits.rows.filter fun r => r.2 == 2).map (·.1) = ["var", "biweight_midvariance"] ∧
+    (Gen.StatsUnits.rows.all fun r => r.2 == 1 || r.2 == 2) = true ∧
+    Gen.StatsUnits.calculateStatsHonoursUnit = true := by decide
+
+/-- the unit attached is consistent with how the statistic scales: a statistic of power p of data in unit u, re-expressed in a unit
+    c times smaller (values c times larger), changes by c^p - so only `unit^p` keeps the physical quantity unchanged -/
+theorem stat_unit_consistent (p : Nat) (c v : Rat) (hc : c ≠ 0) :
+    (scalesWith p c * v) / c ^ p = v := by
+  unfold scalesWith
+  rw [mul_comm, mul_div_assoc, div_self (pow_ne_zero p hc), mul_one]
+
+theorem statUnit_none (p : Nat) : statUnit none p = none := rfl
+theorem statUnit_some (u p : Nat) : statUnit (some u) p = some (u, p) := rfl
 
 end PhotVerif.C15
